@@ -16,6 +16,7 @@ from fsmc import tissue as T, fsutil
 from fsmc.explorer import ProductSystem
 from fsmc.ref import raster as RR, mesh as RM
 
+REPO = os.environ.get("FORSYS_REPO", "/repo")
 PID = "C15"
 RULE = ("states = (rasterised tissue or shipped image, one of 8 symmetries, padding, mirror_y, ne); "
         "non-trivial = at least two cells; classes = (image, symmetry, padding, mirror, ne)")
@@ -231,4 +232,4 @@ def build(tier, seed):
         specs = [[5, 5, 15, 0, 40], [8, 3, 15, 1, 36], [3, 8, 15, 2, 44], [5, 4, 20, seed + 3, 50], [5, 4, 30, 0, 36, True]]
         return [Images(specs, 3, [6, 3, 4, 5, 7, 8, 9])]
     specs = [[5, 5, 15, 0, 40], [8, 3, 15, 1, 36], [3, 8, 15, 2, 44], [5, 4, 20, seed + 3, 50], [6, 6, 10, 4, 60], [9, 4, 20, 5, 38], [4, 4, 25, 6, 90], [7, 7, 15, 7, 35]]
-    return [Images(specs, 3, [6, 3, 4, 5, 7, 8, 9], shipped=["/repo/tests/data/test_nonzero.tif"])]
+    return [Images(specs, 3, [6, 3, 4, 5, 7, 8, 9], shipped=[REPO + "/tests/data/test_nonzero.tif"])]
